@@ -90,7 +90,7 @@ def cases(tier: str, seed: int) -> list[dict]:
                 w = GW.structured_world(conv, 2, 3, bounds=rep % 2 == 0)
             else:
                 w = GW.structured_world(conv, 2, 3, shape="skew", holes=[(0, 0)] if rep % 2 else None)
-            CD.add_data_vars(w, rng)
+            CD.add_data_vars(w, rng, packed=True)
             off = rng.choice([600, 660, -300, 330, -570, 0, 480, -60])
             period = rng.choice(["days", "hours", "minutes", "seconds"])
             date = rng.choice(DATES); tm = rng.choice(TIMES)
